@@ -77,6 +77,9 @@ HttpRequestMethod::HttpRequestMethod(const SBuf &s) : theMethod(Http::METHOD_NON
 
     // TODO: Optimize this linear search.
     for (++theMethod; theMethod < Http::METHOD_ENUM_END; ++theMethod) {
+        if (theMethod == Http::METHOD_OTHER)
+            continue; // a placeholder for unknown methods, not a method name
+
         // RFC 2616 section 5.1.1 - Method names are case-sensitive
         // NP: this is not a HTTP_VIOLATIONS case since there is no MUST/SHOULD involved.
         if (0 == image().caseCmp(s)) {
